@@ -62,7 +62,7 @@ def __cubic_3d_1o(state: np.ndarray, _: float,
         + (s02 * s2 * params[11]) + (s12 * s1 * params[12]) \
         + (s12 * s0 * params[13]) + (s12 * s2 * params[14]) \
         + (s22 * s2 * params[15]) + (s22 * s0 * params[16]) \
-        + (s22 * s1 * params[17])
+        + (s22 * s1 * params[17]) + (s0 * s1 * s2 * params[18])
 
 
 def cubic(system: System) -> Controller:
